@@ -15,6 +15,9 @@ for d in sorted(glob.glob("/verif/seeded/*")):
         continue
     meta = json.load(open(os.path.join(d, "meta.json")))
     prop = meta["property"]
+    if meta.get("retired"):
+        print(name, prop, "retired (no longer breaks the property on the repaired tree)", flush=True)
+        continue
     rc, out = sh("git -C /repo apply %s" % os.path.join(d, "patch.diff"))
     if rc != 0:
         res[name] = "patch does not apply: " + out[:200]
